@@ -620,10 +620,16 @@ func predicateBody(v ssa.Value) (ssa.Value, bool) {
 				return nil, false
 			}
 		case *ssa.Lookup:
+		case *ssa.MakeInterface:
 		case *ssa.Call:
-			if b, isB := x.Call.Value.(*ssa.Builtin); !isB || (b.Name() != "len" && b.Name() != "cap") {
-				return nil, false
+			if b, isB := x.Call.Value.(*ssa.Builtin); isB && (b.Name() == "len" || b.Name() == "cap") {
+				continue
 			}
+			// encoding/binary.Size only inspects its argument
+			if f := core.CalleeFunc(x); f != nil && f.Pkg() != nil && f.Pkg().Path() == "encoding/binary" && f.Name() == "Size" {
+				continue
+			}
+			return nil, false
 		case *ssa.Return:
 			ret = x
 		default:
